@@ -1,9 +1,9 @@
 SPEC = {
     "id": "C14",
     "components": [
-        {"comp": "bloom", "module": "QV.Model.BloomLog", "quick": 1200, "thorough": 30000},
-        {"comp": "token_cache", "module": "QV.Model.TokenCache", "quick": 1500, "thorough": 40000},
-        {"comp": "token_decision", "module": "QV.Model.TokenDecision", "quick": 1000, "thorough": 20000},
+        {"comp": "bloom", "module": "QV.Model.BloomLog", "quick": 1200, "thorough": 10000},
+        {"comp": "token_cache", "module": "QV.Model.TokenCache", "quick": 1500, "thorough": 15000},
+        {"comp": "token_decision", "module": "QV.Model.TokenDecision", "quick": 1000, "thorough": 8000},
     ],
     "assumptions": [
         "AEAD unforgeability of Token::decode (whatever opens under the server's token key is the unmodified encoding of a token that "
